@@ -127,7 +127,15 @@ func generate(cfg *hx.Config) []hx.Case {
 	add := func(kind string, in []string) {
 		cases = append(cases, hx.Case{Name: fmt.Sprintf("%s%d", kind, len(cases)+1), In: in})
 		cfg.Count("kind=" + kind)
+		if in[0] == "MULTI" {
+			cfg.Count("multi-tunnel")
+		}
 		if in[0] == "TUN" {
+			for _, t := range in {
+				if t == "Zc" || t == "Zt" || t == "Zb" {
+					cfg.Count("slow-reader")
+				}
+			}
 			cfg.Count("via=" + in[1])
 			if i := strings.IndexByte(in[1], '+'); i >= 0 {
 				cfg.Count("listener=" + in[1][i:])
@@ -304,7 +312,7 @@ func generate(cfg *hx.Config) []hx.Case {
 				in := append([]string{"TUN", v + lk, "e0", "b0"}, toks...)
 				add("prev", append(append([]string{}, in...), "c5/t6", "c/t8192", "c8192/t", "ch/t", "c/t4097h"))
 				in[2] = "e10"
-				add("prev", append(append([]string{}, in...), "c1/t12000h"))
+				add("prev", append(append([]string{}, in...), "c1/t", "c/t12000h"))
 			}
 		}
 	}
@@ -317,6 +325,46 @@ func generate(cfg *hx.Config) []hx.Case {
 			add("strm", []string{"TUN", v + lk, "e1", "b7", "c5/t6", "cS/ta"})
 		}
 	}
+
+	// 1h. SLOW-reading peers and transfers larger than the socket buffers at the moment of
+	// close, both directions, plain and recorded dial: the reader must get every byte and then a
+	// clean end-of-stream (an abortive close by the PROXY when nobody aborted is a violation)
+	slowSz := []int{1 << 20, 3000000}
+	if cfg.Thorough() {
+		slowSz = append(slowSz, 4<<20, 6000000)
+	}
+	for i, sz := range slowSz {
+		for _, dialk := range []string{"Kp", "Kt"} {
+			for j, v := range []string{"D", "M", "F", "D+s", "D+w"} {
+				if !cfg.Thorough() && (i+j)%2 == 1 && dialk == "Kt" {
+					continue
+				}
+				if v == "D+w" {
+					// cannot half-close the client side: the target's shut ends the client's direction,
+					// so the upload comes first
+					add("slow", []string{"TUN", v, "e0", "b0", "Zt", dialk, fmt.Sprintf("c%dh/t", sz), "c/th"})
+					add("slow", []string{"TUN", v, "e0", "b7", "Zc", dialk, "ch/t", fmt.Sprintf("c/t%dh", sz)})
+					continue
+				}
+				// the other direction has finished before; the sender closes right after its last byte
+				add("slow", []string{"TUN", v, "e0", "b0", "Zt", dialk, "c/th", fmt.Sprintf("c%dh/t", sz)})
+				add("slow", []string{"TUN", v, "e10", "b0", "Zt", dialk, "c/th", fmt.Sprintf("c%df/t", sz)})
+				if v != "D+w" {
+					add("slow", []string{"TUN", v, "e0", "b7", "Zc", dialk, "ch/t", fmt.Sprintf("c/t%dh", sz)})
+					add("slow", []string{"TUN", v, "e0", "b0", "Zb", dialk, fmt.Sprintf("c%dh/t%dh", sz, sz)})
+				}
+			}
+		}
+	}
+
+	// 1i. SEVERAL tunnels at once through one proxy and one listener (the shaped listener in
+	// particular): some idle, others transferring; every tunnel judged on its own with the
+	// usual bounded wait — no tunnel may depend on another tunnel's progress
+	for _, v := range []string{"D+t2000", "D", "M+t4096", "D+w", "D+s", "M"} {
+		add("multi", []string{"MULTI", v, "|", "e0", "b0", "cI/t", "ch/th", "|", "e0", "b0", "c31/t", "c/t5", "ch/th"})
+		add("multi", []string{"MULTI", v, "|", "e0", "b0", "c/tI", "ch/th", "|", "e3", "b0", "c31/t5", "c100000/t70000", "ch/th", "|", "e0", "b7", "c5/t6", "ca/t", "c/th"})
+	}
+	add("multi", []string{"MULTI", "D+t2000", "|", "e0", "b0", "cI/t", "ch/th", "|", "e0", "b0", "cI/t", "ch/th", "|", "e0", "b0", "c31/t", "c/th", "ch/t", "|", "e1", "b0", "c4097/t4095", "ch/th"})
 
 	// 2. early data / banner boundaries around the 4096-byte bufio buffers
 	for _, v := range vias {
